@@ -21,14 +21,13 @@ int g_ncalls, g_nsets, g_set_kind, g_set_param, g_set_bval, g_set_ival, g_set_in
 int g_spec_bval, g_type_tag, g_name_seed_ok, g_toff, g_noff, g_voff;
 double g_set_rval; unsigned int g_set_uval;
 int g_stoi_ret; double g_stod_ret; unsigned long g_stoul_ret; long g_strtol4, g_strtol5;
-int g_conv_ok, g_setter_ret;
+int g_conv_ok, g_setter_ret, g_threw;
+const unsigned char* gp_mp;
 int g_slack;
 int g_nbool, g_nint, g_nreal;                  /* the enum counts, for the loop invariants (loops.json sees no macros) */
 _Static_assert(N_BOOLPARAM <= NTAB && N_INTPARAM <= NTAB && N_REALPARAM <= NTAB, "match tables too small");
 const char* gp_src; int g_srclen;
 
-/* `throw` inside a stub: see CONV_THROW in unit.cpp (followed by an unreachable marker) */
-void verif_throw(void) {}
 /* Called by the comparison / conversion stubs with the offset of the token they are handed: the token must be a
  * C string inside the buffer that ends BEFORE any blank, line end or comment character, i.e. the parser terminated
  * it where the token ends.  e = position of the first NUL at or behind off (chosen nondeterministically and pinned
@@ -59,13 +58,14 @@ static void havoc_ghosts(void)
    g_slack = SLACK; g_nbool = N_BOOLPARAM; g_nint = N_INTPARAM; g_nreal = N_REALPARAM;
    /* recording ghosts start from a known state */
    g_ptoff = 0; g_pnoff = 0; g_pvoff = 0;
+   g_threw = 0;
    g_ncalls = 0; g_nsets = 0; g_set_kind = -1; g_set_param = -1; g_set_bval = -1; g_set_ival = 0; g_set_init = -1; g_set_ret = -1;
    g_spec_bval = -2; g_type_tag = -2; g_name_seed_ok = 0; g_toff = -1; g_noff = -1; g_voff = -1; g_set_rval = 0.0; g_set_uval = 0;
 }
 
 #define IS_DELIM(c) (IS_WS(c) || (c) == '\n' || (c) == '#' || (c) == '\0' || (c) == ':' || (c) == '=')
-#define TABLES_FRESH (__CPROVER_is_fresh(mb, NTAB) && __CPROVER_is_fresh(mi, NTAB) && __CPROVER_is_fresh(mr, NTAB))
-#define GHOST_WRITES gp_line, gp_mb, gp_mi, gp_mr, gp_off, g_ptoff, g_pnoff, g_pvoff, g_ncalls, g_nsets, g_set_kind, g_set_param, \
+#define TABLES_FRESH (__CPROVER_is_fresh(mb, NTAB) && __CPROVER_is_fresh(mi, NTAB) && __CPROVER_is_fresh(mr, NTAB) && __CPROVER_is_fresh(mp, NTAB))
+#define GHOST_WRITES gp_line, gp_mb, gp_mi, gp_mr, gp_mp, g_threw, gp_off, g_ptoff, g_pnoff, g_pvoff, g_ncalls, g_nsets, g_set_kind, g_set_param, \
    g_set_bval, g_set_ival, g_set_init, g_set_ret, g_spec_bval, g_type_tag, g_name_seed_ok, g_toff, g_noff, g_voff, \
    g_set_rval, g_set_uval
 
@@ -75,6 +75,7 @@ static void havoc_ghosts(void)
 
 /* C15 dispatch clauses shared by both functions (all in terms of what the stubs recorded) */
 #define DISPATCH_ENSURES \
+__CPROVER_ensures(g_threw ==> (!RET && g_nsets == 0))                                   /* a conversion that throws: handled, reported as failure, nothing set */ \
 __CPROVER_ensures(g_nsets == 0 || g_nsets == 1)                                       /* at most one setter is ever called     */ \
 __CPROVER_ensures(RET ==> (g_nsets == 0 ? g_ncalls == 0 : g_set_ret != 0))            /* true: blank/comment line, or the setter accepted */ \
 __CPROVER_ensures(!RET ==> (g_nsets == 0 || g_set_ret == 0))                          /* false: nothing set, or the setter refused (no effect) */ \
@@ -90,7 +91,7 @@ __CPROVER_ensures((g_nsets == 1 && g_set_kind == 3) ==> (g_name_seed_ok && g_set
 
 #ifdef INST_LINE
 /* _parseSettingsLine: any NUL-terminated content of the buffer loadSettingsFile() hands over */
-int w_line(char* line, int lineNumber, const unsigned char* mb, const unsigned char* mi, const unsigned char* mr)
+int w_line(char* line, int lineNumber, const unsigned char* mb, const unsigned char* mi, const unsigned char* mr, const unsigned char* mp)
 /* the call site: char line[SPX_SET_MAX_LINE_LEN] filled by getline(): a terminator at g_len <= SPX_SET_MAX_LINE_LEN-1,
  * arbitrary (stale) bytes behind it; with SLACK the byte behind the terminator exists and is NUL as well */
 __CPROVER_requires(__CPROVER_is_fresh(line, MAXLEN + 1) && 0 <= g_len && g_len <= MAXLEN - SLACK && line[g_len] == '\0')
@@ -106,9 +107,9 @@ DISPATCH_ENSURES
 ;
 void h_line(void)
 {
-   char* line; int lineNumber; const unsigned char* mb; const unsigned char* mi; const unsigned char* mr;
+   char* line; int lineNumber; const unsigned char* mb; const unsigned char* mi; const unsigned char* mr; const unsigned char* mp;
    havoc_ghosts();
-   w_line(line, lineNumber, mb, mi, mr);
+   w_line(line, lineNumber, mb, mi, mr, mp);
    CANARY();
 }
 #endif
@@ -117,7 +118,7 @@ void h_line(void)
 /* parseSettingsString: the caller's string is only read (as a C string) and never written; the parse runs on a
  * local copy whose content (any bytes, terminator within the first SPX_SET_MAX_LINE_LEN - 1) is chosen by the
  * spxSnprintf stub. */
-int w_string(char* string, const unsigned char* mb, const unsigned char* mi, const unsigned char* mr)
+int w_string(char* string, const unsigned char* mb, const unsigned char* mi, const unsigned char* mr, const unsigned char* mp)
 __CPROVER_requires(0 <= g_srclen && g_srclen <= 2 * SPX_SET_MAX_LINE_LEN && __CPROVER_is_fresh(string, g_srclen + 1) && string[g_srclen] == '\0')
 __CPROVER_requires(0 <= g_len && g_len <= SPX_SET_MAX_LINE_LEN - 2 - SLACK && 0 <= g_k && g_k <= MAXLEN)
 __CPROVER_requires(TABLES_FRESH)
@@ -126,9 +127,9 @@ DISPATCH_ENSURES
 ;
 void h_string(void)
 {
-   char* string; const unsigned char* mb; const unsigned char* mi; const unsigned char* mr;
+   char* string; const unsigned char* mb; const unsigned char* mi; const unsigned char* mr; const unsigned char* mp;
    havoc_ghosts();
-   w_string(string, mb, mi, mr);
+   w_string(string, mb, mi, mr, mp);
    CANARY();
 }
 #endif
